@@ -1,14 +1,23 @@
 (** pkt/src/ipv4.rs: ip_csum_partial / ip_csum_fold / ip_csum.
-    The accumulator is modelled as an unbounded N; the u32 accumulator of the code cannot
-    overflow for buffers below 128 KiB (each word adds < 2^16), the theorems carry the bound. *)
+    ip_csum_partial sums the big-endian 16-bit words (odd trailing byte padded) in a u64 -- which
+    cannot overflow below 2^48 words -- and folds the carries back in until the value fits 16 bits. *)
 From RS Require Import Base.Bytes.
 
-Fixpoint csum_partial (l : bytes) : N :=
+Fixpoint csum_words (l : bytes) : N :=
   match l with
-  | a :: b :: r => (a * 256 + b) + csum_partial r
+  | a :: b :: r => (a * 256 + b) + csum_words r
   | [a] => a * 256
   | [] => 0
   end.
+
+(** while (sum >> 16) != 0 { sum = (sum & 0xffff) + (sum >> 16) } *)
+Fixpoint oc_reduce (fuel : nat) (s : N) : N :=
+  match fuel with
+  | O => s
+  | S f => if s <? 65536 then s else oc_reduce f (s mod 65536 + s / 65536)
+  end.
+
+Definition csum_partial (l : bytes) : N := oc_reduce 8 (csum_words l).
 
 Definition csum_fold (running : N) : N :=
   let s1 := (running mod 65536) + (running / 65536) in
